@@ -57,6 +57,39 @@ def strtbl_blowup(k, m):
     return bytes([3, 0x0a, 0x6a]) + mb(len(tbl)) + tbl + body
 
 
+EMB_TYPE = b"application/vnd.syncml-devinf+wbxml"
+
+
+def embedded_chain(k):
+    """SyncML 1.1 <Item><Meta><Type>…devinf+wbxml</Type></Meta><Data>OPAQUE(doc(k-1))</Data></Item>: k levels of embedded documents"""
+    d = b"x"
+    for _ in range(k):
+        d = (bytes([0x02, 0x9F, 0x53, 0x6A, 0x00, 0x54, 0x5A, 0x00, 0x01, 0x53, 0x03]) + EMB_TYPE +
+             bytes([0x00, 0x01, 0x00, 0x00, 0x01, 0x4F, 0xC3]) + mb(len(d)) + d + bytes([0x01, 0x01]))
+    return d
+
+
+def embedded_bomb(levels, k):
+    """a NUL-free embedded document kept in its parent's string table and referenced k times per level
+    (the literal tag "Type" is the unterminated tail of the table): output multiplies by k at every embedding level
+    unless embedding is bounded"""
+    def ok(n):
+        return 0 not in mb(n)
+    d = b"\x02\x9f\x53\x6a\x01x\x14"
+    for _ in range(levels):
+        junk = b"x"
+        while True:
+            tbl = junk + d + b"Type"
+            idx = len(junk) + len(d)
+            if ok(len(tbl)) and ok(idx) and ok(len(junk)):
+                break
+            junk += b"x"
+        body = bytes([0x54, 0x5A, 0x44]) + mb(idx) + bytes([0xC3, 0x23]) + EMB_TYPE + bytes([0x01, 0x01])
+        body += (bytes([0x4F, 0x83]) + mb(len(junk)) + bytes([0x01])) * k + bytes([0x01])
+        d = bytes([0x02, 0x9F, 0x53, 0x6A]) + mb(len(tbl)) + tbl + body
+    return d
+
+
 def mutate(rng, doc):
     b = bytearray(doc)
     r = rng.below(6)
